@@ -146,4 +146,40 @@ theorem stationIngest_some (c : Crypto) (k : Consts) (cfg : Cfg) (r : Reg) (disa
   simp only [Prog.bind_eq, Prog.pure_eq, Prog.run_bind]
   cases ((stationDerive c k cfg { r with params := ingestParams disable (some rr) r.params }).run R g).1 <;> rfl
 
+/-! ### the first candidate of the port draw (boundary behaviour of `PortSelectorRange`) -/
+
+theorem maskTop8 (bs : Bytes) : maskTop 8 bs = bs := by
+  cases bs with
+  | nil => rfl
+  | cons x xs =>
+    simp only [maskTop]
+    congr 1
+    show x &&& 255 = x
+    exact UInt8.and_neg_one
+
+/-- a 16-bit bound: the first big-endian word of the stream is the port offset iff it is below the bound;
+a word at or above the bound is rejected and the draw continues with the next word -/
+theorem portSelectorRange_first_candidate (s : Stream) (lim lo : Nat) (hl : 2 ≤ lim) (max : Nat)
+    (hb : bitLen (max - 1) = 16) (hm : max ≠ 0) :
+    (beNat (readAt s 0 2) < max → portSelectorRange s lim lo (lo + max) = .ok ((beNat (readAt s 0 2) + lo) % 65536)) ∧
+    (max ≤ beNat (readAt s 0 2) → portSelectorRange s lim lo (lo + max) =
+      match randIntLoop s lim 2 8 max lim 2 with
+      | .ok p => .ok ((p + lo) % 65536) | .err _ => .ok 0 | .panic w => .panic w) := by
+  have hr : randInt s lim max = randIntLoop s lim 2 8 max (lim + 1) 0 := by
+    unfold randInt
+    simp [hm, hb]
+  constructor
+  · intro h
+    unfold portSelectorRange
+    rw [Nat.add_sub_cancel_left, hr, randIntLoop]
+    have : ¬ lim < 0 + 2 := by omega
+    simp only [this, if_false, maskTop8, h, if_true]
+  · intro h
+    unfold portSelectorRange
+    rw [Nat.add_sub_cancel_left, hr, randIntLoop]
+    have h1 : ¬ lim < 0 + 2 := by omega
+    have h2 : ¬ beNat (readAt s 0 2) < max := by omega
+    simp only [h1, if_false, maskTop8, h2, Nat.zero_add]
+    cases randIntLoop s lim 2 8 max lim 2 <;> rfl
+
 end CJ.ClientSession
